@@ -10,7 +10,7 @@ from core import Eval
 
 PROPERTY = "C12"
 DRIVER = "drv_c12"
-PROPS = ["PartituraModel.Props.C12"]
+PROPS = ["PartituraModel.Props.C12", "PartituraModel.Props.C12Real"]
 TRUSTED = [
     "Python str.lower/upper/strip, re for NOTE_NAME_PATT (modelled as a scanner)",
     "binary64 evaluation of 1e6*ppq*t/mpq before np.round (model exact; x.5 boundaries judged by the oracle only)",
